@@ -234,10 +234,13 @@ class Builder:
                     self.route_objs[hid] = route
                     if model.resources and last_tmpl == tmpl and model.resources[-1].kind in ("plain", "dyn"):
                         mr = model.resources[-1]
+                        if method.upper() in mr.routes or "*" in mr.routes:
+                            raise Violation("duplicate-route-accepted", f"add_route({method!r}, {tmpl!r}) was accepted although {sorted(mr.routes)} "
+                                            f"are registered on that resource: the earlier handler is silently replaced (documented: RuntimeError)")
                     else:
                         mr = MRes("dyn" if "{" in tmpl else "plain", prefix + tmpl, order)
                         model.resources.append(mr)
-                    mr.routes[method] = hid
+                    mr.routes[method.upper()] = hid  # (methods are case-insensitive at registration: 'get' is GET)
                     if method == "GET":
                         mr.routes.setdefault("HEAD", hid)
                     last_tmpl = tmpl
@@ -414,7 +417,7 @@ def tables(draw, depth: int = 0):
     for _ in range(n):
         k = draw(st.integers(0, 9))
         if k <= 6 or depth >= 2:
-            entries.append(("route", draw(st.sampled_from(["GET", "GET", "POST", "*"])), draw(st.sampled_from(TEMPLATES))))
+            entries.append(("route", draw(st.sampled_from(["GET", "GET", "POST", "*", "get", "post"])), draw(st.sampled_from(TEMPLATES))))
         elif k == 7:
             entries.append(("static", draw(st.sampled_from(["/a", "/s", "/a/b", "/a b", "/é/s"]))))
         elif k == 8:
@@ -513,12 +516,30 @@ def unit_redirects(rec: Rec, n: int, offset: int) -> None:
     hyp.run(rec, strat, check_redirect, n, seed_offset=offset, max_root_causes=3)
 
 
+def unit_method_case(rec: Rec) -> None:
+    """One resource, two or three registrations, every spelling of the methods: a second registration of a method already
+    there is refused (documented), it never silently replaces the first handler."""
+    # (no plain "GET" here: the harness registers that one with add_get(), which adds a HEAD route first and leaves it
+    # behind when the GET registration is then refused - a wart of its own, not the subject)
+    spellings = ["get", "Get", "gET", "POST", "post", "*"]
+    for tmpl in ("/a", "/a/{x}"):
+        for k in (2,):
+            for ms in itertools.product(spellings, repeat=k):
+                desc = [("route", m, tmpl) for m in ms]
+                try:
+                    run_table(rec, desc, label="method-case")
+                except Violation as v:
+                    rec.fail(v.key, v.msg, desc)
+    rec.exhaustive = True
+
+
 def units(tier: str, seed: int) -> list[Unit]:
     n = 12 if tier == "quick" else 1200
     us = [Unit(f"tables{i}", unit_hyp, {"n": n, "offset": i}) for i in range(8)]
     ns = 4 if tier == "quick" else 8
     for sh in range(ns):
         us.append(Unit(f"orders{sh}", unit_orders, {"shard": sh, "nshards": ns, "size": 2 if tier == "quick" else 3}))
+    us.append(Unit("method-case", unit_method_case, {}))
     us.append(Unit("redirects0", unit_redirects, {"n": 300 if tier == "quick" else 20000, "offset": 50}))
     us.append(Unit("redirects1", unit_redirects, {"n": 300 if tier == "quick" else 20000, "offset": 51}))
     return us
